@@ -707,5 +707,3 @@ theorem match_complete (E : ReEnv) (root rel path : Str) (ts : List TTok)
 end Jsr
 end Restful
 
-#print axioms Restful.Jsr.match_sound
-#print axioms Restful.Jsr.match_complete
